@@ -422,7 +422,7 @@ def oracle_fails(c, variant, k10, drv):
     return any(o[1] == variant for o in ev["oracle"]) or bool(ev["crashes"])
 
 
-def shrink_case(c, variant, k10, drv, budget=120):
+def shrink_case(c, variant, k10, drv, budget=160):
     cur = dict(c)
     n = 0
     changed = True
@@ -432,8 +432,8 @@ def shrink_case(c, variant, k10, drv, budget=120):
         cands = []
         # drop the tail of the message (last segment shorter / removed)
         if segs and segs[-1] > 0:
-            for cut in (segs[-1], segs[-1] // 2, 1):
-                if cut:
+            for cut in (segs[-1], segs[-1] // 2, 64, 16, 1):
+                if 0 < cut <= segs[-1]:
                     s2 = segs[:-1] + [segs[-1] - cut]
                     cands.append((s2, cur["msg"][:len(cur["msg"]) - cut]))
         if len(segs) > 1 and segs[-1] == 0:
@@ -443,7 +443,7 @@ def shrink_case(c, variant, k10, drv, budget=120):
             cands.append((segs[:i] + [segs[i] + segs[i + 1]] + segs[i + 2:], cur["msg"]))
         # drop the head of the message
         if segs and segs[0] > 0:
-            for cut in (segs[0], segs[0] // 2, 16, 1):
+            for cut in (segs[0], segs[0] // 2, 1024, 256, 64, 16, 1):
                 if 0 < cut <= segs[0]:
                     cands.append(([segs[0] - cut] + segs[1:], cur["msg"][cut:]))
         # shorter aad
